@@ -353,3 +353,10 @@ def histogram(part, c):
 
 
 PARTS = [Part("evidence", "c07", "evidence", gen, nontrivial=nontrivial, describe=describe, shrink=ddmin("acts"))]
+
+# ---- composed model (Model/EvidenceKeys.v = KeyAssign x Evidence): theorems in Props/C07System.v, part "system" in harness/c07sys/part.py
+EXTRA_PROPS = ["C07System"]
+import importlib.util as _ilu, os as _os
+_spec = _ilu.spec_from_file_location("c07sys_part", _os.path.join(_os.path.dirname(_os.path.abspath(__file__)), "..", "..", "harness", "c07sys", "part.py"))
+_c07sys = _ilu.module_from_spec(_spec); _spec.loader.exec_module(_c07sys)
+PARTS.append(_c07sys.PART)
